@@ -90,13 +90,22 @@ func classifyDump(dump string) (string, string) {
 }
 
 func compile(bin, dir string, p *gogen.Prog, sched string, gmp int) compiled {
+	return compileSrc(bin, dir, p.Source(), p.Rsize, false, sched, gmp)
+}
+
+// compileSrc runs bondgo once. With mpm the multi-processor mode is used: the artefacts are the
+// bondmachine JSON and one assembly file per processor (concatenated into Asm).
+func compileSrc(bin, dir, src string, rsize int, mpm bool, sched string, gmp int) compiled {
 	os.RemoveAll(dir)
 	os.MkdirAll(dir, 0o755)
-	os.WriteFile(filepath.Join(dir, "p.go"), []byte(p.Source()), 0o644)
+	os.WriteFile(filepath.Join(dir, "p.go"), []byte(src), 0o644)
 	ctx, cancel := context.WithCancel(context.Background())
 	defer cancel()
-	cmd := exec.CommandContext(ctx, filepath.Join(bin, "bondgo"), "-input-file", "p.go", "-save-assembly", "out.asm", "-save-machine", "m.json",
-		"-show-requirements", "-register-size", strconv.Itoa(p.Rsize))
+	args := []string{"-input-file", "p.go", "-save-assembly", "out.asm", "-save-machine", "m.json", "-show-requirements", "-register-size", strconv.Itoa(rsize)}
+	if mpm {
+		args = []string{"-mpm", "-input-file", "p.go", "-save-assembly", "out.asm", "-save-bondmachine", "m.json", "-show-requirements", "-register-size", strconv.Itoa(rsize)}
+	}
+	cmd := exec.CommandContext(ctx, filepath.Join(bin, "bondgo"), args...)
 	cmd.Dir = dir
 	cmd.Env = append(os.Environ(), "GOMAXPROCS="+strconv.Itoa(gmp), "VERIF_BONDGO_SCHED="+sched, "VERIF_BONDGO_LOG="+filepath.Join(dir, "sites.log"))
 	var so, se bytes.Buffer
@@ -171,6 +180,21 @@ func compile(bin, dir string, p *gogen.Prog, sched string, gmp int) compiled {
 		return res
 	}
 	a, e1 := os.ReadFile(filepath.Join(dir, "out.asm"))
+	if mpm {
+		// numbered per processor: out.asm_0, out.asm_1, ...
+		a, e1 = nil, nil
+		for i := 0; ; i++ {
+			b, e := os.ReadFile(filepath.Join(dir, fmt.Sprintf("out.asm_%d", i)))
+			if e != nil {
+				if i == 0 {
+					e1 = e
+				}
+				break
+			}
+			a = append(a, []byte(fmt.Sprintf("== processor %d\n", i))...)
+			a = append(a, b...)
+		}
+	}
 	m, e2 := os.ReadFile(filepath.Join(dir, "m.json"))
 	if e1 != nil || e2 != nil {
 		res.Status, res.Detail = "crashed", "no assembly or machine written, no error printed"
@@ -796,6 +820,62 @@ func main() {
 			key = "miscompiled:" + strings.Join(features(small), "+")
 		}
 		run.Violation(key, w)
+	})
+
+	// multi-processor programs (goroutines and channels): termination and determinism of the compiler
+	nMpm := 12
+	if tier == "thorough" {
+		nMpm = 200
+	}
+	rngM := hx.RNG(seed, "c12-mpm")
+	mpmSrc := make([]string, nMpm)
+	mpmRs := make([]int, nMpm)
+	for i := range mpmSrc {
+		mpmRs[i] = []int{8, 16, 32}[rngM.IntN(3)]
+		mpmSrc[i] = gogen.GenerateMpm(rngM, mpmRs[i])
+	}
+	hx.Par(nMpm, func(i int) {
+		dir := filepath.Join(scratch, fmt.Sprintf("m%d", i))
+		defer os.RemoveAll(dir)
+		run.Eval(int64(len(scheds)))
+		var first compiled
+		for si, sc := range scheds {
+			c := compileSrc(bin, filepath.Join(dir, fmt.Sprint(si)), mpmSrc[i], mpmRs[i], true, sc.name, sc.gmp)
+			w := map[string]any{"kind": "mpm", "source": mpmSrc[i], "rsize": mpmRs[i], "schedule": sc.name, "gomaxprocs": sc.gmp}
+			switch c.Status {
+			case "deadlock":
+				w["goroutines"], w["last_allocator_site"] = c.Detail, c.Last
+				site := c.Last
+				if j := strings.Index(site, ":"); j >= 0 {
+					site = site[j+1:]
+				}
+				run.Violation("compiler-deadlock:"+site, w)
+				return
+			case "inconclusive":
+				run.Inconclusive("mpm:" + c.Detail)
+				return
+			case "rejected", "crashed", "unencodable":
+				if si == 0 {
+					run.Tally("mpm_rejected_by_the_compiler", c.Status+": "+c.Detail)
+					return
+				}
+				w["detail"] = c.Detail
+				run.Violation("schedule-dependent-rejection", w)
+				return
+			}
+			if si == 0 {
+				first = c
+				continue
+			}
+			if digest(c) != digest(first) {
+				w["difference"] = firstDiff(first, c)
+				run.Violation("schedule-dependent-output", w)
+				return
+			}
+		}
+		run.Tally("last_allocator_interaction", first.Last)
+		run.Tally("features_compiled", "goroutines+channels")
+		run.Nontrivial(mpmSrc[i])
 	})
 	os.Exit(run.Finish())
 }
